@@ -505,7 +505,13 @@ def run_special(case):
 
                 def with_orphans(mesh, extra):
                     coord = np.vstack([mesh.coord, np.asarray(extra, dtype=float)])
-                    return Mesh({et: GroupElemFactory.Create(et, g.connect, coord) for et, g in mesh.dict_groupElem.items()}, verbosity=False)
+                    d = {}
+                    for et, g in mesh.dict_groupElem.items():
+                        ng = GroupElemFactory.Create(et, g.connect, coord)
+                        for tag, nodes in g._dict_nodes_tags.items():     # beams find their elements by tag
+                            ng.Set_Tag(np.asarray(nodes), tag)
+                        d[et] = ng
+                    return Mesh(d, verbosity=False)
                 kind, k = case["kind"], case["orphans"]
                 if kind == "phasefield":
                     mesh, coords = grid_mesh(case["nx"], case["ny"], case["elem"], k)
